@@ -47,16 +47,16 @@ CHECKS = {
          "every program of up to 4 (5-6) top-level steps with up to 3 (4) re-entrant reactions (connect/disconnect/emit/destroy inside slots, nesting to 3-4) over 1-2 emitters, 1-2 signals, 2-3 listeners, 1-2 slots; every invocation, every returning emission and both sides' bookkeeping are decided against the model, destroyed objects by ASan",
          "bounded numbers of objects, steps and reactions", "DESIGN.md §4 C12"),
  "C13": ("model_checking", "stateless exhaustive DFS over choice sequences of environment answers (send outcomes, peer reads, time) and application actions on the real Server/Socket code with intercepted send/epoll_wait/clock",
-         "every sequence of 4 (5) application turns over {write 1/3/8, suspend, resume, peer write, nothing} combined with every placement of <= 2 (3) non-default OS answers (would-block, partial 1 / n/2 / n-1, peer reads nothing / one byte); stream integrity, postponed/backlog size, onWrite accounting and suspension are decided on each; a descriptor that answered would-block stays unwritable until time advances so that backlogs persist across application turns; two clients (3 turns) whose callbacks suspend / resume / remove each other, with would-block, partial and connection-reset answers (onClosed exactly once after a failed send)",
+         "every sequence of 4 (5-6) application turns over {write 1/3/8, suspend, resume, peer write, nothing} combined with every placement of <= 3 non-default OS answers (would-block, partial 1 / n/2 / n-1, peer reads nothing / one byte); stream integrity, postponed/backlog size, onWrite accounting and suspension are decided on each; a descriptor that answered would-block stays unwritable until time advances so that backlogs persist across application turns; two clients (3 turns) whose callbacks suspend / resume / remove each other, with would-block, partial and connection-reset answers (onClosed exactly once after a failed send); clients created by accept / connect over loopback TCP with a write or suspend inside the creating callback",
          "real kernel socket pair + epoll readiness; the only injected hard error is a connection reset on send", "DESIGN.md §4 C13"),
  "C14": ("model_checking", "explorer C (stateless DFS over programs of application turns, re-entrant reactions inside callbacks and environment deviations on the real Server with intercepted epoll_wait/clock) + explorer B (schedule DFS of run() against interrupt() from a second thread with the event descriptor and epoll modelled by the scheduler)",
-         "sequential: every program of up to 3-5 application turns and up to 2 reactions inside timer/onRead callbacks over timers with equal and different due times, two paired clients, peer writes/closes, suspend/resume, interrupt, with clock overshoot/jump and reversed readiness order; two clients with send backlogs reacting on each other; listeners and establishers over real loopback TCP in a private network namespace (3-5 turns, 1-3 reactions inside onAccepted/onConnected/onAbolished/onRead); threaded: four run/interrupt scenarios and five host-name-resolver scenarios (resolver on a pool thread against remove, destruction and interrupt) under every schedule with <= 2 (3) preemptions",
+         "sequential: every program of up to 3-5 application turns and up to 2 reactions inside timer/onRead callbacks over timers with equal and different due times, two paired clients, peer writes/closes, suspend/resume, interrupt, with clock overshoot/jump and reversed readiness order; two clients with send backlogs reacting on each other; listeners and establishers over real loopback TCP in a private network namespace (3-5 turns, 1-3 reactions inside onAccepted/onConnected/onAbolished/onRead); threaded: four run/interrupt scenarios and six host-name-resolver scenarios (resolver on a pool thread against remove, destruction, interrupt and a reconnect) under every schedule with <= 2 (3) preemptions",
          "real kernel socket pairs, loopback TCP and epoll in the sequential parts (the TCP part needs the privilege to create a network namespace, reported in the evidence); getaddrinfo is replaced by a model that resolves no name", "DESIGN.md §4 C14"),
  "C15": ("exploration", "exhaustive enumeration of token strings / value trees / symbol strings on the real parser, serialiser and comment stripper under ASan",
-         "every token string up to 5 (6) tokens over a 32-token alphabet, every value tree up to 4 (5) nodes, every stripComments input up to 8 (10) symbols; totality, bounds, error position, round trip and comment removal are decided on each",
+         "every token string up to 5 (6) tokens over a 33-token alphabet and every byte prefix of the accepted ones, every value tree up to 4 (5) nodes, deep and wide documents, every pair of documents of up to 2 (3) x 3 tokens through one Parser object and result variable, every stripComments input up to 8 (10) symbols; totality, bounds, error position, round trip and comment removal are decided on each",
          "alphabets and sizes are bounded; integers must come back as integers of identical value (Variant == alone converts between number types)", "DESIGN.md §4 C15"),
  "C16": ("exploration", "exhaustive enumeration of token strings / element trees / comment placements on the real parser and serialiser under ASan, plus handle-history BFS for element value copies",
-         "every token string up to 5 (6) tokens over a 27-token alphabet through both entry points, every element tree of the stated shape space serialised and re-parsed, values with 0..300 (1200) characters that need escaping (every reallocation point of the escaper), a comment at every token boundary of every tree, processing instructions with line breaks, nesting to 1000; time and memory watchdogs decide termination",
+         "every token string up to 5 (6) tokens over a 27-token alphabet through both entry points, every element tree of the stated shape space serialised and re-parsed, values with 0..300 (1200) characters that need escaping (every reallocation point of the escaper), a comment at every token boundary of every tree, processing instructions with line breaks, nesting to 1000 (also with siblings on every level), wide trees, every pair of documents of up to 2 (3) x 3 tokens through one Parser object and result element; time and memory watchdogs decide termination",
          "alphabets and sizes are bounded; comments inside tags are white-space separated", "DESIGN.md §4 C16"),
  "C17": ("exploration", "exhaustive enumeration of message length x chunking shapes on the real code vs hashlib/hmac",
          "every length 0..300 (1500 thorough) x 4 content generators, every 2-way and (bounded) 3-way chunking, hasher reuse, "
@@ -69,7 +69,7 @@ CHECKS = {
          "every path of <= 4 (5) components over 8 names and both separators, all answerable getRelativePath pairs, every file operation history of <= 4 (5) steps over 24 operations, every Directory::create argument of <= 3 components, every tree of <= 4 (5) nodes with symlinks for recursive unlink",
          "the kernel's file system semantics are trusted; runs in a private scratch directory", "DESIGN.md §4 C19"),
  "C20": ("exploration", "exhaustive enumeration of argument vectors against glibc getopt_long, and of command lines / launch configurations against an echoing helper child",
-         "every argument vector of <= 4 (6) strings over 21 option/value forms in exactly sized heap blocks, every command line of <= 3 words over 7 quoting forms through the real Process::open, the launch matrix (overloads x environments x stream combinations x payload sizes around the pipe capacity) and all 256 exit codes",
+         "every argument vector of <= 4 (6) strings over 23 option/value forms in exactly sized heap blocks, every command line of <= 3 words over 7 quoting forms through the real Process::open, the launch matrix (overloads x environments x all seven stream combinations x payload sizes around the pipe capacity), overlapping processes, two children on one Process object, late writers and all 256 exit codes",
          "glibc getopt_long (exact long names) is the reference; real vfork/exec in the sandbox", "DESIGN.md §4 C20"),
 }
 NOT_YET = "check not built yet in this snapshot (planned, see DESIGN.md §4)"
